@@ -32,6 +32,8 @@ def regenerate(ctx):
 
 
 def build_harness(ctx, release=False):
+    global HARNESS
+    HARNESS = common.harness_dir("harness_str")   # shadow copy when BV_REPO points at a scratch worktree
     with common.Lock("cargo_str"):
         if not os.path.exists(os.path.join(HARNESS, "Cargo.lock")):
             common.sh("cp /repo/Cargo.lock .", cwd=HARNESS)
